@@ -11,7 +11,7 @@ ASSUMPTIONS = ["timeline read from Sequence._schedule; reference renderer shares
                "phase is only required over real pulses; nanoseconds where two drives of one basis overlap on an atom are gray for the phase"]
 TIERS = {"quick": dict(cases=1200, shards=8, case_timeout=120, shard_timeout=900),
          "thorough": dict(cases=20000, shards=16, case_timeout=120, shard_timeout=3000)}
-FLOORS = {"quick": {"channel_arrays_checked": 2000, "atom_views_checked": 2000, "extensions_checked": 2000},
+FLOORS = {"quick": {"channel_arrays_checked": 2000, "atom_views_checked": 2000, "extensions_checked": 2000, "ring_dmm_scripts_rendered": 30},
           "thorough": {"channel_arrays_checked": 30000}}
 WEIGHTS = {"sample": 0, "str": 0, "to_abstract_repr": 0, "build_copy": 0, "queries": 0, "measure": 0.05,
            "config_detuning_map": 1.5, "add_dmm_detuning": 3, "config_slm_mask": 1.0, "target": 3}
@@ -54,7 +54,47 @@ def xy_mask_script(ctx, idx, rng):
     ctx.mark_nontrivial(("xyscript", idx))
 
 
+def ring_dmm_script(ctx, idx, rng):
+    """Directed history: atoms on a ring (coordinates r*cos, r*sin: mirrored sites agree in x only up to float noise,
+    some with an explicit 1e-9 um jitter), a detuning map over all ring sites with pairwise different weights, a DMM
+    pulse and global pulses; every mirrored pair of sites holds atoms."""
+    import math
+
+    dev = {"kind": "builtin", "name": "MockDevice"}
+    N = gen.pick(rng, [12, 16, 20, 14])
+    rad = gen.pick(rng, [10.0, 12.5, 17.3])
+    ph = gen.pick(rng, [0.0, 0.0, math.pi / 2])  # pi/2: the mirrored pairs share y, and x decides
+    jit = gen.pick(rng, [0.0, 1e-9, 3e-8])
+    traps = [[rad * math.cos(2 * math.pi * k / N + ph) + jit * rng.uniform(-1, 1),
+              rad * math.sin(2 * math.pi * k / N + ph) + jit * rng.uniform(-1, 1)] for k in range(N)]
+    ks = rng.sample(range(1, N // 2), rng.randint(1, 3))
+    sites = [k for k0 in ks for k in (k0, N - k0)]
+    rng.shuffle(sites)
+    reg = {"kind": "reg", "ids": ["q%d" % i for i in range(len(sites))], "coords": [traps[k] for k in sites]}
+    mon = RenderMonitor(ctx)
+    r = prog.Runner(ctx, dev, reg, [mon])
+    ws = [round((j * 7 % N) / N, 3) for j in range(N)]
+    rng.shuffle(ws)
+    ops = [{"op": "config_detuning_map", "map": {"by": "traps", "traps": traps, "weights": ws}, "dmm_id": "dmm_0"},
+           {"op": "declare_channel", "name": "g", "ch_id": "rydberg_global"}]
+    rng.shuffle(ops)
+    spec = r.chspecs["rydberg_global"]
+    tail = [{"op": "add_dmm_detuning", "wf": {"k": "const", "d": gen.pick(rng, [16, 52, 100]), "v": -gen.pick(rng, [1.0, 6.5])}, "ch": "dmm_0"},
+            {"op": "add", "pulse": gen.gen_pulse(rng, spec, d=gen.pick(rng, [16, 60]), pps_p=0.0, arb=0.0), "ch": "g"}]
+    rng.shuffle(tail)
+    for op in ops + tail:
+        if r.step(op).exc is not None:
+            ctx.count("ring_script_call_refused")
+            break
+    else:
+        ctx.count("ring_dmm_scripts_rendered")
+    r.finish()
+    ctx.mark_nontrivial(("ringscript", idx))
+
+
 def run_case(ctx, idx, rng, tier):
+    if idx % 24 == 11:
+        return ring_dmm_script(ctx, idx, rng)
     if idx % 12 == 5:
         return xy_mask_script(ctx, idx, rng)
     xy = rng.random() < 0.2
